@@ -270,7 +270,13 @@ fn check_expr(src: &str, want: &Phys, levels: usize, st: &mut Stats) -> Result<(
             format!("`{src}` has base units {} but dimensional analysis gives {}", p.vec, want.vec),
         ));
     }
-    if (raw.value.is_infinite() || raw.value == 0.0 || raw.value.abs() < 1e-300) && want.mag.is_finite() && want.mag != 0.0 {
+    // the exact value expressed in the unit numbat chose for the result: when that is beyond the
+    // f64 range, inf, 0 or (inf - inf) NaN is all floating point can give
+    let expected_in_result_unit = cat.unit_of_factors(&raw.factors).map(|(_, factor)| want.mag / factor);
+    let exact_value_unrepresentable = matches!(expected_in_result_unit, Some(x) if x != 0.0 && (!x.is_finite() || x.abs() > 1e300 || x.abs() < 1e-300));
+    if ((raw.value.is_infinite() || raw.value == 0.0 || raw.value.abs() < 1e-300) && want.mag.is_finite() && want.mag != 0.0)
+        || (raw.value.is_nan() && exact_value_unrepresentable)
+    {
         // the value does not fit into an f64 *in the unit the result is expressed in* (sums are
         // formed in the smaller unit, e.g. ronto-sievert^9): floating-point overflow/underflow,
         // not a dimensional-analysis disagreement; generated, counted, left out
